@@ -80,6 +80,11 @@ CLAIMED = {
          "seeded search over call sequences of length 0-8 (succeeding, raising, unexposed, private and missing names, kwargs, lossless-core arguments) x normal/one-way batch x second batch on the same BatchProxy x every serializer x compression x server types x concurrent/sequential execution x schedules; oracle: results equal position by position up to the first failure, the failure is the reference's exception class and args (at its position or at submission), states equal, nothing after the failure executed, one-way batch returns None and leaves the reference prefix's state",
          "reference-model refinement over sampled histories with an (almost) empty fault space; the simulator contributes multi-party execution, interleaving and quiescence; arguments stay inside the lossless core",
          "DESIGN.md section 4 C11"),
+ "C16": ("exploration",
+         "deterministic simulation: real Daemon (both server types) driven through histories of registry operations, with calls and return-object steps going through a real Proxy over the simulated network; explicit GC points verified through the harness's own weakrefs; table-is-truth reference model",
+         "seeded search over histories (3-16 steps + a fixed epilogue that lists, calls every id ever seen and returns every pool object) of register (chosen/generated/colliding/reserved ids, force, weak; objects and classes), unregister by object/id, uriFor, proxyFor, call, return-object (serpent/json/msgpack), gc points, registered(); oracle: a call to an id is logged by exactly the modelled object or fails 'unknown object', registered() equals the model, duplicates/reserved refused unless forced, a returned object arrives as a proxy (reaching that very object) iff registered and by value otherwise, also after unregistration by object, by id or by collection",
+         "samples histories; sequential (registry operations never race with calls); register(x, 'Pyro.Daemon', force=True) not generated; five known-finding signatures (forced double registration of one object) are listed in known_findings.json",
+         "DESIGN.md section 4 C16"),
 }
 PENDING = "claimed in DESIGN.md but its check is not built yet; see DESIGN.md section 4"
 ALL = ["C%02d" % i for i in range(1, 21)]
